@@ -37,13 +37,19 @@ func (c *caseT) fails(x int) bool {
 
 // errFor: the error a failing element produces. One in three wraps context.DeadlineExceeded or
 // context.Canceled (a step that timed out on its own sub-context) — the pipeline's context is alive.
+//
+// One in four is an error value whose Error method panics (what a typed-nil *T stored in an error does when the
+// method dereferences): the stages pass errors on, nothing in them needs the text. log/slog, which StdErr
+// writes to, guards the call itself.
 func (c *caseT) errFor(x int) error {
-	switch mix(x, c.FSeed+9) % 3 {
+	switch mix(x, c.FSeed+9) % 4 {
 	case 0:
 		if mix(x, c.FSeed+10)%2 == 0 {
 			return ctxErr{x, context.DeadlineExceeded}
 		}
 		return ctxErr{x, context.Canceled}
+	case 1:
+		return panicErr(x)
 	}
 	return idErr(x)
 }
